@@ -53,6 +53,13 @@ def run_lp(case):
                 events.append(_ev(solver, fn(seq1(cf, cm), seq2(Af, cm), seq1(bf, cm), minimize=minimize), minimize, n))
             except Exception as ex:  # noqa: BLE001
                 events.append({"e": "raise", "solver": solver, "what": type(ex).__name__})
+    # interior point stopped early: whatever it answers then (FEASIBLE needs the documented 0.01 residual, OPTIMAL the true optimum)
+    for mi in case.get("interior_max_iters", (2, 3, 4, 6, 9)):
+        for minimize in (True, False):
+            try:
+                events.append(_ev("interior", solve_lp_interior(cf, Af, bf, minimize=minimize, max_iter=mi), minimize, n))
+            except Exception as ex:  # noqa: BLE001
+                events.append({"e": "raise", "solver": "interior", "what": type(ex).__name__})
     # the iteration limit: "short of its iteration limit, which it reports as MAX_ITER" - every other verdict must stay true
     for mi in case.get("max_iters", (1, 2, 3)):
         for minimize in (True, False):
@@ -147,8 +154,31 @@ def gen_degenerate_pairs(rng):
     return {"A": [A[i] for i in order], "b": [b[i] for i in order], "c": [rng.randint(-9, 9) for _ in range(n)], "floats": rng.random() < 0.5}
 
 
+def gen_nearly_feasible(rng):
+    """an infeasible LP whose contradiction is small (k x <= 1 and (k-1) x >= 1, a sum bounded above by 1 and below by 1.1 ...): the
+    residual of an interior-point iterate stays small without ever vanishing"""
+    n = rng.randint(1, 3)
+    a = [rng.randint(1, 3) for _ in range(n)]
+    k = rng.randint(5, 12)
+    gap = rng.choice([1, 1, 2])
+    A = [[k * v for v in a], [-(k - gap) * v for v in a]]
+    b = [1, -1]
+    if rng.random() < 0.5:
+        A = [[10 * v for v in a], [-10 * v for v in a]]
+        b = [10, -(10 + rng.choice([1, 1, 2]))]          # sum <= 1 and sum >= 1.1 / 1.2
+    for j in range(n):
+        if rng.random() < 0.5:
+            row = [0] * n
+            row[j] = 1
+            A.append(row)
+            b.append(rng.randint(3, 5))
+    return {"A": A, "b": b, "c": [rng.randint(-3, 3) for _ in range(n)], "floats": rng.random() < 0.5}
+
+
 def gen(rng, big=False):
     r0 = rng.random()
+    if r0 < 0.05:
+        return gen_nearly_feasible(rng)
     if r0 < 0.12:
         return gen_degenerate_pairs(rng)
     if r0 < 0.35:
